@@ -38,6 +38,8 @@ pub struct Names {
     pub long_names: bool,
     /// string values are sometimes empty (callers whose oracle does not need unique tokens)
     pub empty_values: bool,
+    /// long names of every length from 8 to 28 characters (column alignment in help)
+    pub mid_names: bool,
 }
 
 impl Names {
@@ -74,6 +76,17 @@ impl Names {
         None
     }
     pub fn long(&mut self, u: &mut Un) -> String {
+        if self.mid_names && u.chance(110) {
+            let n = 8 + u.below(21);
+            let mut l = format!("mid{}", self.longs.len());
+            while l.len() < n {
+                l.push(if l.len() % 5 == 4 { '-' } else { 'x' });
+            }
+            let l = l.trim_end_matches('-').to_owned();
+            if self.longs.insert(l.clone()) {
+                return l;
+            }
+        }
         if self.long_names && u.chance(50) {
             let n = 20 + u.below(45);
             let mut l = format!("long{}", self.longs.len());
